@@ -1707,6 +1707,7 @@ func (p *Parser) primary() (Expr, *ParseError) {
 			if err != nil {
 				return nil, err
 			}
+			p.match(TokenComma) // trailing comma of the template list
 			if err := p.expectErr(TokenGreater); err != nil {
 				return nil, err
 			}
@@ -1717,6 +1718,7 @@ func (p *Parser) primary() (Expr, *ParseError) {
 			if err != nil {
 				return nil, err
 			}
+			p.match(TokenComma) // trailing comma of the argument list
 			if err := p.expectErr(TokenRightParen); err != nil {
 				return nil, err
 			}
